@@ -1,5 +1,6 @@
 import Qats.Model.Peaks
 import Qats.Lemmas.Rainflow
+import Qats.Lemmas.PeaksSort
 import Mathlib.Tactic
 /-!
 Main lemmas behind the C14 property theorems (statements fixed by `Qats/Props/C14.lean`).
@@ -26,54 +27,92 @@ def IsLocalMax (x : List α) (i : Nat) (v : α) : Prop :=
 
 /-- Exact characterisation of the global maxima (before threshold and sorting). -/
 theorem globalMaxima_spec' (x : List α) (i : Nat) (v : α) : (i, v) ∈ globalMaxima x ↔ IsGlobalMax x i v := by
-  sorry
+  exact globalMaxima_mem_iff x i v
 
 /-- The global maxima are reported in time order, one per excursion (positions strictly increasing). -/
 theorem globalMaxima_increasing' (x : List α) : (globalMaxima x).Pairwise (fun a b => a.1 < b.1) := by
-  sorry
+  exact globalMaxima_pairwise x
 
 /-- Exact characterisation of the local maxima. -/
 theorem localMaxima_spec' (x : List α) (i : Nat) (v : α) : (i, v) ∈ localMaxima x ↔ IsLocalMax x i v := by
-  sorry
+  exact localMaxima_mem_iff x i v
 
 /-- Every global maximum value is a local maximum of the same excursion (reached through a plateau of that value). -/
 theorem global_subset_local' (x : List α) (i : Nat) (v : α) (h : (i, v) ∈ globalMaxima x) :
     ∃ j, i ≤ j ∧ (j, v) ∈ localMaxima x ∧ ∀ k, i ≤ k → k ≤ j → x[k]? = some v := by
-  sorry
+  obtain ⟨j, hij, hlm, hpl⟩ := GM_subset_local ((globalMaxima_mem_iff x i v).mp h)
+  exact ⟨j, hij, (localMaxima_mem_iff x j v).mpr hlm, hpl⟩
 
 /-- The result of `find_maxima` consists of exactly the raw maxima not below the threshold … -/
 theorem findMaxima_mem' (x : List α) (loc : Bool) (thr : Option α) (iv : Nat × α) :
     iv ∈ findMaxima x loc thr ↔
       iv ∈ (if loc then localMaxima x else globalMaxima x) ∧ (∀ t, thr = some t → t ≤ iv.2) := by
-  sorry
+  rw [findMaxima_eq, (isort_perm _ _).mem_iff, List.mem_filter, decide_eq_true_iff]
 
 /-- … each with the same multiplicity (a permutation of the filtered list) … -/
 theorem findMaxima_perm' (x : List α) (loc : Bool) (thr : Option α) :
     (findMaxima x loc thr).Perm
       ((if loc then localMaxima x else globalMaxima x).filter fun iv => decide (∀ t, thr = some t → t ≤ iv.2)) := by
-  sorry
+  rw [findMaxima_eq]
+  exact isort_perm _ _
 
 /-- … in ascending order of value, and every reported value is the signal value at the reported position. -/
 theorem findMaxima_sorted' (x : List α) (loc : Bool) (thr : Option α) :
     (findMaxima x loc thr).Pairwise (fun a b => a.2 ≤ b.2) ∧ ∀ iv ∈ findMaxima x loc thr, x[iv.1]? = some iv.2 := by
-  sorry
+  refine ⟨by rw [findMaxima_eq]; exact isort_pairLe_pairwise _, ?_⟩
+  intro iv hiv
+  obtain ⟨i, v⟩ := iv
+  have hraw := ((findMaxima_mem' x loc thr (i, v)).mp hiv).1
+  cases loc with
+  | true => exact ((localMaxima_mem_iff x i v).mp hraw).2.choose_spec.choose_spec.2.1
+  | false => exact ((globalMaxima_mem_iff x i v).mp hraw).1
 
 /-- A positive affine map of the signal keeps the positions and maps the values (threshold mapped alike). -/
 theorem findMaxima_affine' (x : List α) (loc : Bool) (thr : Option α) (a b : α) (ha : 0 < a) :
     findMaxima (x.map fun v => a * v + b) loc (thr.map fun t => a * t + b) =
       (findMaxima x loc thr).map fun iv => (iv.1, a * iv.2 + b) := by
-  sorry
+  exact findMaxima_affine_aux x loc thr a b ha
+
+theorem getElem?_map_neg (x : List α) (k : Nat) (w : α) :
+    (x.map fun v => -v)[k]? = some w ↔ x[k]? = some (-w) := by
+  rw [List.getElem?_map, Option.map_eq_some_iff]
+  constructor
+  · rintro ⟨u, h, rfl⟩
+    rw [neg_neg]; exact h
+  · intro h
+    exact ⟨-w, h, neg_neg w⟩
 
 /-- Minima are the mirrored maxima of the negated signal: positions are interior troughs / excursion minima below the
 mean; stated for the local case as the exact characterisation. -/
 theorem findMinima_local_spec' (x : List α) (iv : Nat × α) :
     iv ∈ findMinima x true none ↔
       1 ≤ iv.1 ∧ ∃ a c, x[iv.1 - 1]? = some a ∧ x[iv.1]? = some iv.2 ∧ x[iv.1 + 1]? = some c ∧ iv.2 ≤ a ∧ iv.2 < c := by
-  sorry
+  obtain ⟨i, v⟩ := iv
+  unfold findMinima
+  simp only [List.mem_map, Option.map_none, Prod.mk.injEq]
+  constructor
+  · rintro ⟨⟨j, w⟩, hjw, rfl, rfl⟩
+    have h := (findMaxima_mem' _ true none (j, w)).mp hjw
+    obtain ⟨h1, a, c, ha, hw, hc, hle, hlt⟩ := (localMaxima_mem_iff _ j w).mp h.1
+    rw [getElem?_map_neg] at ha hw hc
+    exact ⟨h1, -a, -c, ha, hw, hc, neg_le_neg hle, neg_lt_neg hlt⟩
+  · rintro ⟨h1, a, c, ha, hv, hc, hle, hlt⟩
+    refine ⟨(i, -v), ?_, rfl, neg_neg v⟩
+    refine (findMaxima_mem' _ true none (i, -v)).mpr ⟨?_, by simp⟩
+    refine (localMaxima_mem_iff _ i (-v)).mpr ⟨h1, -a, -c, ?_, ?_, ?_, neg_le_neg hle, neg_lt_neg hlt⟩
+    · rw [getElem?_map_neg, neg_neg]; exact ha
+    · rw [getElem?_map_neg, neg_neg]; exact hv
+    · rw [getElem?_map_neg, neg_neg]; exact hc
 
 /-- Values reported by `findMinima` are the signal values at the reported positions. -/
 theorem findMinima_value' (x : List α) (loc : Bool) (thr : Option α) :
     ∀ iv ∈ findMinima x loc thr, x[iv.1]? = some iv.2 := by
-  sorry
+  intro iv hiv
+  unfold findMinima at hiv
+  simp only [List.mem_map] at hiv
+  obtain ⟨⟨j, w⟩, hjw, rfl⟩ := hiv
+  have h := (findMaxima_sorted' _ _ _).2 (j, w) hjw
+  rw [getElem?_map_neg] at h
+  exact h
 
 end Qats.Peaks
